@@ -125,11 +125,12 @@ Definition after_exp (l : bytes) : bool :=
   end.
 Definition after_int (l : bytes) : bool :=
   match l with
-  | 46 :: r => match digits1 r with Some r' => after_exp r' | None => false end
-  | _ => after_exp l
+  | c :: r => if c =? 46 then match digits1 r with Some r' => after_exp r' | None => false end else after_exp l
+  | [] => true
   end.
+Definition strip_minus (tok : bytes) : bytes := match tok with c :: r => if c =? 45 then r else tok | [] => [] end.
 Definition valid_num (tok : bytes) : bool :=
-  match (match tok with 45 :: r => r | _ => tok end) with
+  match strip_minus tok with
   | c :: r => if c =? 48 then after_int r else if is_digit c then after_int (drop_digits r) else false
   | [] => false
   end.
